@@ -777,13 +777,14 @@ func c04FuncInCore(it *c04Item) bool {
 	return c04InCore(it.a, 1) && c04InCore(it.b, 0)
 }
 
-// c04InCore mirrors Spec.core_x (ctx 0), Spec.pcore_x (ctx 1) and Spec.catch_params_only (ctx 2): the fragment
-// for which resolution_correct_partial is proved
+// c04InCore mirrors Spec.core_x (ctx 0), Spec.hcore_x false = pcore_x (ctx 1: a parameter list) and Spec.hcore_x true
+// (ctx 2: the parameter pattern of a catch clause, where default values may mention later names of the pattern): the
+// fragment for which resolution_correct is proved
 func c04InCore(l []*c04Item, ctx int) bool {
 	for i, it := range l {
 		switch it.kind {
 		case c04KRef:
-			if ctx == 2 || ctx == 1 && c04Intersects([]int{it.x}, c04HeadNames(l[i+1:])) {
+			if ctx == 1 && c04Intersects([]int{it.x}, c04HeadNames(l[i+1:])) {
 				return false
 			}
 		case c04KDecl:
@@ -795,7 +796,7 @@ func c04InCore(l []*c04Item, ctx int) bool {
 				return false
 			}
 		case c04KFunc, c04KArrow:
-			if ctx == 2 || !c04FuncInCore(it) {
+			if !c04FuncInCore(it) {
 				return false
 			}
 			if ctx == 1 && c04Intersects(append(c04AllNames(it.a), c04AllNames(it.b)...), c04HeadNames(l[i+1:])) {
@@ -822,7 +823,7 @@ func c04InCore(l []*c04Item, ctx int) bool {
 			}
 		case c04KClass:
 			// a class body without class-expression name; the members declare nothing (no var in static blocks)
-			if ctx == 2 || it.nm >= 0 || !c04InCore(it.a, 0) || len(c04LexNames(it.a)) != 0 || len(c04VarNames(it.a)) != 0 {
+			if it.nm >= 0 || !c04InCore(it.a, 0) || len(c04LexNames(it.a)) != 0 || len(c04VarNames(it.a)) != 0 {
 				return false
 			}
 			if ctx == 1 && c04Intersects(c04AllNames(it.a), c04HeadNames(l[i+1:])) {
